@@ -75,6 +75,13 @@ fn entropy_grid(rng: &mut Rng, n_random: usize) -> Vec<Ent> {
         c.extend(vec![0u8; 3]);
         v.push(Ent::Bytes(c));
     }
+    // gate double 0.0, then every value of the first byte the mutation itself draws
+    for a in 0..=255u8 {
+        let mut b = vec![0u8; 8];
+        b.push(a);
+        b.extend(rng.bytes(7));
+        v.push(Ent::Bytes(b));
+    }
     for _ in 0..n_random {
         let n = 8 + rng.below(40) as usize;
         v.push(Ent::Bytes(rng.bytes(n)));
@@ -665,6 +672,67 @@ pub fn c16(thorough: bool, seed: u64) -> CheckOutput {
         |a, b| a.merge(b),
     );
     acc.merge(memo_acc);
+    // exhaustive over the two entropy bytes that follow the gate double, for boundary indices:
+    // every (index, draw) pair of the three memo-index mutations is observed
+    let memo_grid: Vec<usize> = vec![0, 1, 2, 254, 255, 256, 257, 997, 998, 999, 1000, 1001, 65_535, 65_536, usize::MAX - 1, usize::MAX];
+    let memo_grid_ref = &memo_grid;
+    let sweep = par_run(
+        memo_grid.len() * 256,
+        Acc::new,
+        |i, acc| {
+            let m = memo_grid_ref[i / 256];
+            let hi = (i % 256) as u8;
+            let uns = MemoIndexMutator::new(true);
+            let safe = MemoIndexMutator::new(false);
+            for lo in 0..=255u8 {
+                let mut b = vec![0u8; 8];
+                b.extend_from_slice(&[hi, lo, lo ^ 0x5a, hi ^ 0xa5, 0, 0, 0, 0]);
+                let e = Ent::Bytes(b);
+                acc.evaluations += 3;
+                let bad = |acc: &mut Acc, which: &str, r: usize, why: &str| {
+                    acc.violate(violation(
+                        "C16",
+                        format!("C16:{}:memo_index_sweep", which),
+                        format!("{}.mutate_memo_index({}) -> {}: {}", which, m, r, why),
+                        json!({"mutator": which, "value": m, "result": r, "entropy": e.to_json(), "rate": 1.0}),
+                    ));
+                };
+                match with_source(&e, |s| uns.mutate_memo_index(m, s, 1.0)) {
+                    Ok(Some(r)) => {
+                        acc.count("sweep_memoindex_unsafe_fired", 1);
+                        acc.max("max_unsafe_memo_index_seen", r as u64);
+                        if r >= 1000 {
+                            bad(acc, "memoindex_unsafe", r, "unsafe mode index not below 1000");
+                        }
+                    }
+                    Ok(None) => {}
+                    Err(p) => bad(acc, "memoindex_unsafe_panic", 0, &p),
+                }
+                match with_source(&e, |s| safe.mutate_memo_index(m, s, 1.0)) {
+                    Ok(Some(r)) => {
+                        acc.count("sweep_memoindex_safe_fired", 1);
+                        if r.abs_diff(m) > 1 {
+                            bad(acc, "memoindex_safe", r, "safe mode moved the index by more than one");
+                        }
+                    }
+                    Ok(None) => {}
+                    Err(p) => bad(acc, "memoindex_safe_panic", 0, &p),
+                }
+                match with_source(&e, |s| OffByOneMutator.mutate_memo_index(m, s, 1.0)) {
+                    Ok(Some(r)) => {
+                        acc.count("sweep_offbyone_memo_fired", 1);
+                        if r != m.saturating_add(1) && r != m.saturating_sub(1) {
+                            bad(acc, "offbyone", r, "not index +/- 1 saturating");
+                        }
+                    }
+                    Ok(None) => {}
+                    Err(p) => bad(acc, "offbyone_panic", 0, &p),
+                }
+            }
+        },
+        |a, b| a.merge(b),
+    );
+    acc.merge(sweep);
 
     // TypeConfusion on snapshots built from real emissions of every opcode + synthetic edge cases
     let n_gen = if thorough { 30_000 } else { 400 };
